@@ -10,9 +10,13 @@
    keeps, [fbytes p k c id x] for each wire field (id, x) the reader ignores, in wire order -- fbytes is literally what
    the runtime writer emits for that field (header, value).
 
-   Domain: evo_dom / no_retyped_variant as in C08; no_keep_arg S: no declaration is both keep and is_arg -- finding F-13a:
-   such a type takes `remaining - 2` bytes of the whole buffer once its known fields are read (C13_is_arg_refuted). *)
-From PVGen Require Import Gen GenKeep GenSpec EvoSpec KeepSpec Proofs.GenBase Proofs.KeepP Proofs.KeepSizeP Proofs.KeepTopP Proofs.KeepViewP Proofs.KeepRetP Proofs.KeepWtP Proofs.KeepMainP FullSpec Proofs.KeepFullP GenUnsafe Proofs.KeepLinkedP.
+   Domain: evo_dom / no_retyped_variant as in C08; arg_free S T tv: no struct the decoder of T VISITS while reading tv is
+   both keep and is_arg -- finding F-13a: such a type takes `remaining - 2` bytes of the whole buffer once its known fields
+   are read (C13_is_arg_refuted).  The condition is relative to the type and the message, not to the schema: a keep build
+   of a service IDL has keep + is_arg structs, and every type that does not reach one is in the domain for every message
+   (C13_arg_free_of_reach: no_keep_arg_reach S T, reachability over declared field / variant / element types; Example
+   KeepTopP.keep_decode_service_nonvacuous has such a schema). *)
+From PVGen Require Import Gen GenKeep GenSpec EvoSpec KeepSpec Proofs.GenBase Proofs.KeepP Proofs.KeepArgP Proofs.KeepSizeP Proofs.KeepTopP Proofs.KeepViewP Proofs.KeepRetP Proofs.KeepWtP Proofs.KeepMainP FullSpec Proofs.KeepFullP GenUnsafe Proofs.KeepLinkedP.
 From PV Require Import Proofs.HeaderP Thrift.Unsafe Proofs.UnsafeP.
 Open Scope Z_scope.
 
@@ -20,15 +24,25 @@ Open Scope Z_scope.
    (the chunks of [viewk] are [fbytes] by definition), in wire order, at every nesting level; the known fields are the
    tolerant reader's; exactly the message is consumed and the reader context restored *)
 Theorem C13_bytes : forall S p k T tv,
-  no_keep_arg S = true -> p <> PCompact ->
+  p <> PCompact ->
   wt tv = true -> ttype_of tv = ttype_of_ty S T ->
-  evo_dom S T tv = true -> no_retyped_variant S T tv = true ->
+  evo_dom S T tv = true -> no_retyped_variant S T tv = true -> arg_free S T tv = true ->
   forall c, w_pend c = None ->
   exists ss, write_val p k tv c = Ok (ss, c) /\
     forall fuel r rcx, (vsize tv <= fuel)%nat -> idle rcx ->
       gen_decode_keep S p fuel T (mkS (flat ss ++ r) rcx) = lift_view (viewk S p k c T tv) (mkS r rcx).
 Proof. exact keep_decode. Qed.
 Print Assumptions C13_bytes.
+
+(* the type-level sufficient condition: no struct reachable from T is both keep and is_arg; implied by the schema-wide
+   no_keep_arg *)
+Theorem C13_arg_free_of_reach : forall S v t, no_keep_arg_reach S t -> arg_free S t v = true.
+Proof. exact reach_arg_free. Qed.
+Print Assumptions C13_arg_free_of_reach.
+
+Theorem C13_reach_of_no_keep_arg : forall S T, no_keep_arg S = true -> no_keep_arg_reach S T.
+Proof. exact no_keep_arg_all. Qed.
+Print Assumptions C13_reach_of_no_keep_arg.
 
 (* ... and each such chunk is a contiguous slice of the message *)
 Theorem C13_bytes_slice : forall p k c fs ss id x,
@@ -43,7 +57,7 @@ Print Assumptions C13_bytes_slice.
    union consists of fields the reader ignores -- there the keep build yields `_UnknownFields` where the plain build
    reports an empty union, by design. *)
 Theorem C13_known_unchanged : forall S p k T tv,
-  wf_schema S = true -> no_keep_arg S = true -> p <> PCompact ->
+  wf_schema S = true -> arg_free S T tv = true -> p <> PCompact ->
   wt tv = true -> ttype_of tv = ttype_of_ty S T ->
   evo_dom S T tv = true -> no_retyped_variant S T tv = true -> unions_single S T tv = true ->
   forall c, w_pend c = None ->
@@ -85,7 +99,7 @@ Print Assumptions C13_retain_layout.
    the original value".  What is proved towards it: the re-read tree is given in closed form (reenc), every ignored field
    is in it unchanged (C13_retain_unknown), and the known fields are the reader's own view re-encoded. *)
 Theorem C13_retain_partial : forall S p k T tv g,
-  wf_schema S = true -> no_keep_arg S = true -> p <> PCompact ->
+  wf_schema S = true -> arg_free S T tv = true -> p <> PCompact ->
   wt tv = true -> ttype_of tv = ttype_of_ty S T ->
   evo_dom S T tv = true -> no_retyped_variant S T tv = true ->
   forall c, w_pend c = None ->
@@ -123,10 +137,10 @@ Theorem C13_size_decoded : forall S p k c T tv g b,
 Proof. exact keep_decoded_size. Qed.
 Print Assumptions C13_size_decoded.
 
-(* finding F-13a: without no_keep_arg the decode statement is false *)
+(* finding F-13a: without arg_free the decode statement is false *)
 Theorem C13_is_arg_refuted :
   exists S p k T tv ss,
-    wf_schema S = true /\ no_keep_arg S = false /\ wt tv = true /\ ttype_of tv = ttype_of_ty S T /\
+    wf_schema S = true /\ arg_free S T tv = false /\ wt tv = true /\ ttype_of tv = ttype_of_ty S T /\
     evo_dom S T tv = true /\ no_retyped_variant S T tv = true /\
     write_val p k tv w0 = Ok (ss, w0) /\
     viewk S p k w0 T tv = Ok (GStruct [(1, GStruct [(1, GI32 1)] []); (2, GI32 2)] []) /\
@@ -169,7 +183,7 @@ Print Assumptions C13_full_reader_exact.
    up to dfill, and stops at the end of the message.  The original message is in the C08 domain of both readers
    (evo_dom / no_retyped_variant for S and for W); the re-encoded one then is in W's (C13_reenc_domain). *)
 Theorem C13_retain : forall S W p k T tv g gw,
-  wf_schema S = true -> wf_schema W = true -> sub_schema S W = true -> no_keep_arg S = true -> p <> PCompact ->
+  wf_schema S = true -> wf_schema W = true -> sub_schema S W = true -> p <> PCompact ->
   wt tv = true -> ttype_of tv = ttype_of_ty S T ->
   evo_dom S T tv = true -> no_retyped_variant S T tv = true ->
   evo_dom W T tv = true -> no_retyped_variant W T tv = true ->
